@@ -83,6 +83,7 @@ func stageSearch(shards []zoekt.Searcher, qs []query.Q, specs []kit.QSpec, chunk
 				m[k] = fmt.Sprintf("%+v %s", sig[k], rest)
 				sg := sig[k]
 				sg.Ranges = ""
+				sg.Branches = ""
 				nr[k] = fmt.Sprintf("%+v %s", sg, rest)
 			}
 		}
